@@ -218,7 +218,7 @@ def parser_ops(case, root_index, direct=False):
         if not context_args:
             return [('SetFmt', 'argList', {'l': []})]
         if shared:
-            return [('InjectIn', 'argList', root_index[('shortcut', None, 'parser_args')])]
+            return [('InjectIn', 'argList', root_index[('shortcut', None, 'parser_args')], 'TPShortcutParserArgs')]
         return [('SetFmt', 'argList', {'l': [enc(a) for a in context_args]})]
     if not context_args:
         return [('SetInt', 'argString', enc(''))] if parser == 'string' else []
@@ -300,8 +300,8 @@ def body_ops(st):
 def step_ops(st, root_index, where, var_roots):
     """ops of one step followed by its probe. root_index: {(pname, j, key): n}."""
     if st['kind'] == 'configvars':
-        return [('InjectIn', k, n) for k, n in var_roots] + [('Probe',)]
-    ops = [('InjectIn', k, root_index[(where[0], where[1], k)]) for k, _ in st.get('in', [])]
+        return [('InjectIn', k, n, 'TPConfigVars') for k, n in var_roots] + [('Probe',)]
+    ops = [('InjectIn', k, root_index[(where[0], where[1], k)], 'TPIn') for k, _ in st.get('in', [])]
     body = body_ops(st)
     if st.get('foreach'):
         ops.append(('SetFmt', '$fe', {'l': st['foreach']}))
@@ -319,7 +319,7 @@ def step_ops(st, root_index, where, var_roots):
 def render_op(o):
     t = o[0]
     if t == 'InjectIn':
-        return f'InjectIn {cstr(o[1])} (rt {o[2]}%nat)'
+        return f'InjectIn {o[3]} {cstr(o[1])} (rt {o[2]}%nat)'
     if t == 'Unset':
         return f'Unset {cstr(o[1])}'
     if t == 'SetFmt':
